@@ -22,4 +22,12 @@ def callArityOp (j : Json) : Json :=
   | none => O [("ok", B true)]
   | some m => O [("err", S m)]
 
+/-- {"op":"callvariadic","fixed":[types],"elem":type,"args":[values]} -> {"ok":[values]} | {"err":true} | {"unmodelled":true} -/
+def callVariadicOp (j : Json) : Json :=
+  let fixed := (jarrK j "fixed").map (fun t => ptypeOf (match t with | .str s => s | _ => ""))
+  match convertVariadic ((jarrK j "args").map valOfJson) fixed (ptypeOf (jString j "elem")) with
+  | none => O [("unmodelled", B true)]
+  | some (.ok ws) => O [("ok", A (ws.map valToJson))]
+  | some _ => O [("err", B true)]
+
 end Vuego.Driver
